@@ -203,23 +203,29 @@ impl WorkerPool {
         let timeout = Duration::from_millis(config.timeout_ms);
 
         loop {
+            // Graceful shutdown: packets accepted before the signal are still analysed
+            // (dispatch refuses new ones once the flag is set), then the worker exits.
             if shutdown_flag.load(Ordering::Relaxed) {
                 tracing::debug!("TCP worker {worker_id} received shutdown signal");
+                while let Ok(packet) = rx.try_recv() {
+                    if !Self::process_packet(
+                        &packet,
+                        &mut connection_tracker,
+                        matcher.as_ref(),
+                        &result_sender,
+                        filter_config.as_ref(),
+                    ) {
+                        tracing::debug!("TCP worker {worker_id}: result channel closed");
+                        return;
+                    }
+                }
                 break;
             }
 
             // Blocking receive for first packet in batch
             let first_packet = match rx.recv_timeout(timeout) {
                 Ok(packet) => packet,
-                Err(RecvTimeoutError::Timeout) => {
-                    if shutdown_flag.load(Ordering::Relaxed) {
-                        tracing::debug!(
-                            "TCP worker {worker_id} received shutdown signal during timeout"
-                        );
-                        break;
-                    }
-                    continue;
-                }
+                Err(RecvTimeoutError::Timeout) => continue,
                 Err(RecvTimeoutError::Disconnected) => {
                     tracing::debug!("TCP worker {worker_id}: channel disconnected");
                     break;
